@@ -227,6 +227,12 @@ var (
 	x07mod  *modules.Module
 
 	curPrefix string
+
+	// the start routine of x07mod waits for releaseCh while holdStart is set
+	holdStart int32
+	releaseCh chan struct{}
+
+	underBody []byte // a body just below the limit (built once)
 )
 
 func resetSlot() {
@@ -461,7 +467,12 @@ func setup() error {
 	modules.EnableModuleManagement(func(*modules.Module) {})
 	keep := modules.Register("x07keep", nil, nil, nil, "api")
 	keep.Enable()
-	x07mod = modules.Register("x07mod", nil, nil, nil)
+	x07mod = modules.Register("x07mod", nil, func() error {
+		if atomic.LoadInt32(&holdStart) == 1 {
+			<-releaseCh
+		}
+		return nil
+	}, nil)
 	os.Args = []string{os.Args[0], "--log", "critical"}
 	modules.SetStdErrReporting(false)
 	if err := modules.Start(); err != nil {
@@ -773,13 +784,13 @@ func requestURL(q *reqT) string {
 // rawDeclared sends a request that announces a body of n bytes and sends none of it: the server must
 // answer from the headers alone.
 func rawDeclared(q *reqT, target string, n int, o *reqObs) (http.Header, []byte) {
-	c, err := net.DialTimeout("tcp", fmt.Sprintf("127.0.0.1:%d", port), 2*time.Second)
+	c, err := net.DialTimeout("tcp", fmt.Sprintf("127.0.0.1:%d", port), 10*time.Second)
 	if err != nil {
 		o.Err = "dial: " + err.Error()
 		return nil, nil
 	}
 	defer c.Close()
-	_ = c.SetDeadline(time.Now().Add(10 * time.Second))
+	_ = c.SetDeadline(time.Now().Add(30 * time.Second))
 	var b strings.Builder
 	fmt.Fprintf(&b, "%s %s HTTP/1.1\r\nHost: 127.0.0.1:%d\r\nContent-Length: %d\r\nContent-Type: application/octet-stream\r\nConnection: close\r\n", q.M, target, port, n)
 	if a := acceptText[q.Accept]; a != "" {
@@ -820,6 +831,15 @@ func doReqOnce(q *reqT) reqObs {
 			rd = bytes.NewReader(sentBody)
 		case "mid":
 			sentBody = midBody()
+			rd = bytes.NewReader(sentBody)
+		case "under":
+			if underBody == nil {
+				underBody = make([]byte, bodyLimit-1000000)
+				for i := range underBody {
+					underBody[i] = byte('A' + i%53)
+				}
+			}
+			sentBody = underBody
 			rd = bytes.NewReader(sentBody)
 		case "chunksmall":
 			sentBody = []byte("x07 chunked request body")
@@ -1004,6 +1024,44 @@ func run(tr *vio.Trace, n int, s *script) error {
 			tr.Flush()
 			o := doReq(&st.Q)
 			tr.EmitRaw(map[string]any{"e": "req", "h": n, "q": st.Q, "ob": o})
+		case "reqstart":
+			// the request arrives while the module is starting; the start routine returns 100 ms later
+			tr.EmitRaw(map[string]any{"e": "try", "h": n, "op": st})
+			tr.Flush()
+			if !x07mod.Online() {
+				releaseCh = make(chan struct{})
+				atomic.StoreInt32(&holdStart, 1)
+				x07mod.Enable()
+				mgDone := make(chan error, 1)
+				go func() { mgDone <- modules.ManageModules() }()
+				deadline := time.Now().Add(5 * time.Second)
+				for x07mod.Status() != modules.StatusStarting {
+					if time.Now().After(deadline) {
+						atomic.StoreInt32(&holdStart, 0)
+						close(releaseCh)
+						return errors.New("x07mod did not reach the starting state")
+					}
+					time.Sleep(100 * time.Microsecond)
+				}
+				go func(ch chan struct{}) {
+					time.Sleep(100 * time.Millisecond)
+					atomic.StoreInt32(&holdStart, 0)
+					close(ch)
+				}(releaseCh)
+				o := doReq(&st.Q)
+				select {
+				case <-mgDone:
+				case <-time.After(20 * time.Second):
+					return errors.New("ManageModules did not return after the start was released")
+				}
+				if err := setModule(true); err != nil {
+					return err
+				}
+				tr.EmitRaw(map[string]any{"e": "reqstart", "h": n, "q": st.Q, "ob": o})
+			} else {
+				o := doReq(&st.Q)
+				tr.EmitRaw(map[string]any{"e": "reqstart", "h": n, "q": st.Q, "ob": o})
+			}
 		case "list":
 			o := doList(st.Via)
 			tr.EmitRaw(map[string]any{"e": "list", "h": n, "via": st.Via, "ob": o})
